@@ -7,7 +7,7 @@ FILES = ['theories/Base.v', 'theories/gen/Codec.v', 'theories/gen/Tp21Gen.v', 't
          'theories/Model21.v', 'theories/Model22.v', 'theories/Replay21.v', 'theories/Replay22.v', 'proofs/CodecProofs.v', 'proofs/Flat.v',
          'proofs/MpgProofs.v', 'proofs/PoolProofs.v', 'proofs/Tp21Seg.v', 'proofs/Tp21Resp.v', 'proofs/TimeoutProofs.v', 'proofs/Tp22Proofs.v', 'proofs/Tp22Resp.v', 'proofs/ConserveProofs.v', 'proofs/FrameLocal22.v',
          'theories/SkelDefs.v', 'theories/FlowDefs.v', 'theories/gen/SkelGen.v', 'proofs/FlowProofs.v', 'proofs/OrderProofs.v',
-         'proofs/Net21.v', 'proofs/Net21Proofs.v', 'proofs/Net22.v', 'proofs/Net22Proofs.v', 'proofs/Net22Bam.v', 'proofs/Tp21Orig.v']
+         'proofs/Net21.v', 'proofs/Net21Proofs.v', 'proofs/Net22.v', 'proofs/Net22Proofs.v', 'proofs/Net22Bam.v', 'proofs/Net21Seq.v', 'proofs/Net22Seq.v', 'proofs/Tp21Orig.v']
 
 
 def gen_capacity(rng):
